@@ -206,6 +206,9 @@ pub fn judge(exp: &Expect, obs: &RObs, pos: usize) -> Result<Option<usize>, (Str
     }
 }
 
+/// after this many violating transitions in one (configuration, image) the exploration stops
+pub const VIOLATION_BUDGET: u64 = 400;
+
 pub struct RdRun<'a> {
     pub property: &'static str,
     pub model: &'a RdModel,
@@ -258,7 +261,13 @@ pub fn explore(run: &RdRun, init: Box<dyn Rd>) -> Outcome {
     nodes.push(Node { parent: 0, op: None, depth: 0 });
     queue.push_back((0, init, 0));
     let mut sampled = false;
+    let mut nviol = 0u64;
     while let Some((id, rd, pos)) = queue.pop_front() {
+        if nviol >= VIOLATION_BUDGET {
+            // the property is refuted many times over: do not spend the budget on a space that no longer closes
+            out.cov.caps_hit.push(format!("{}: exploration stopped after {} violating transitions", cfg, nviol));
+            break;
+        }
         let depth = nodes[id as usize].depth;
         crate::watchdog::enter(|| serde_json::to_string(&path_to(&nodes, id as usize)).unwrap());
         for (opi, op) in run.alphabet.iter().enumerate() {
@@ -325,6 +334,7 @@ pub fn explore(run: &RdRun, init: Box<dyn Rd>) -> Outcome {
                     };
                     let c = sigs.entry(v.sig()).or_insert(0);
                     *c += 1;
+                    nviol += 1;
                     if *c <= 3 {
                         out.violations.push(v);
                     }
